@@ -13,8 +13,8 @@ timeout 3000 make -j16 2>&1 | grep -v '^make\[' > build.log
 rc=${PIPESTATUS[0]}
 if [ $rc -ne 0 ]; then echo "COQ BUILD FAILED"; grep -v '^COQ\|^CoqMakefile' build.log | tail -40; exit 1; fi
 # property theorems: what Print Assumptions says under each of them (Props files are tiny: recompile them to capture it)
-mkdir -p assumptions; rm -f assumptions/*.log
-ls theories/Props/C*.v 2>/dev/null | xargs -r -P 16 -I{} sh -c 'id=$(basename {} .v); timeout 900 coqc -Q theories HP -w -notation-overridden {} > assumptions/$id.log 2>&1 || echo "FAILED {}" >> assumptions/FAILED'
+mkdir -p assumptions; rm -f assumptions/*.log assumptions/FAILED
+grep '^theories/Props/C.*\.v$' _CoqProject | xargs -r -P 16 -I{} sh -c 'id=$(basename {} .v); timeout 900 coqc -Q theories HP -w -notation-overridden {} > assumptions/$id.log 2>&1 || echo "FAILED {}" >> assumptions/FAILED'
 if [ -f assumptions/FAILED ]; then echo "COQ BUILD FAILED (Props)"; cat assumptions/FAILED; exit 1; fi
 ./extraction/build.sh || exit 1
 echo "setup ok"
